@@ -221,7 +221,7 @@ def ast_vars(a: dict) -> set[str]:
 DEFAULT_KNOBS = {
     "activations": ["General"], "fn_reads_output": False, "max_inputs": 3, "max_outputs": 2, "max_blocks": 2,
     "max_rules": 6, "depth": 3, "max_hedges": 2, "outputs_in_antecedents": True, "mixed_types": 0.02,
-    "cascade": True, "disabled": 0.08, "input_lock_range": 0.15, "user_terms": [],
+    "cascade": True, "disabled": 0.08, "input_lock_range": 0.15, "user_terms": [], "many_inputs": 0.0,
 }
 
 
@@ -242,13 +242,18 @@ def gen_spec(rng, **knobs) -> dict:
                        ["t1", "t2", "t3", "t4", "t5", "t6"], ["is_low", "not_so", "very_hi", "orb", "withal", "anyone"]])
     out_terms = C(rng, ["pqrstu", "pqrstu", ["cheap", "fair", "dear", "lux", "max_", "min_"], ["N", "P", "Q", "R", "T", "U"],
                         ["c1", "c2", "c3", "c4", "c5", "c6"]])
+    if k.get("many_inputs") and rng.random() < k["many_inputs"]:
+        # a wide engine (8..12 inputs): NumPy sums 8 or more numbers pairwise, fewer in order; reductions over the inputs
+        # (Linear terms, the input matrix) meet both regimes only with this many inputs
+        n_in = rng.randint(8, 12)
+        in_pool = [f"i{j}" for j in range(12)]
     names_in = in_pool[:n_in]
     names_out = out_pool[:n_out]
     inputs = []
     for j in range(n_in):
         lo, hi = C(rng, [(0.0, 1.0), (0.0, 1.0), (-1.0, 1.0), (-10.0, 30.0), (0.0, 255.0)])
         terms = []
-        for t in range(rng.randint(1, 4)):
+        for t in range(rng.randint(1, 4) if n_in <= 3 else rng.randint(1, 2)):
             r = rng.random()
             cls = C(rng, shapes) if r < 0.9 else ("Function" if r < 0.96 else "Constant")
             if k["user_terms"] and rng.random() < 0.04:
